@@ -4,7 +4,7 @@
 \* well-defined (a rewritten column always has a default to take).
 EXTENDS SqliteModel, Json, SequencesExt, Randomization
 CONSTANTS SeedName, Two, OutFile, Sample
-Seed == CASE SeedName = "Seed1" -> Seed1 [] SeedName = "Seed2" -> Seed2 [] SeedName = "Seed3" -> Seed3 [] SeedName = "Seed5" -> Seed5 [] OTHER -> Seed4
+Seed == CASE SeedName = "Seed1" -> Seed1 [] SeedName = "Seed2" -> Seed2 [] SeedName = "Seed3" -> Seed3 [] SeedName = "Seed5" -> Seed5 [] SeedName = "Seed6" -> Seed6 [] OTHER -> Seed4
 S1 == Succ(Seed)
 Fwd == { <<Seed, R>> : R \in S1 }
 Bwd == { <<R, Seed>> : R \in { X \in S1 : Seed \in Succ(X) } }   \* only edits that are themselves admissible (populated tables)
